@@ -14,7 +14,9 @@ import (
 	al "github.com/rhysd/actionlint"
 	"pgregory.net/rapid"
 	"verifharness/hx"
+	"verifharness/wf"
 	"verifharness/world"
+	ye "verifharness/yamlemit"
 )
 
 // ---- C10: multi-file runs: per-file results are isolated and race-free -------------------------------
@@ -37,7 +39,8 @@ func (c *c10Case) materialise() *world.World {
 	for p, s := range c.Files {
 		w.Write(p, s)
 	}
-	os.MkdirAll(filepath.Join(w.Root, c.Cwd), 0o755)
+	os.MkdirAll(filepath.Join(w.Root, c.Cwd, "sub"), 0o755)
+	os.MkdirAll(filepath.Join(w.Root, "detour"), 0o755)
 	return w
 }
 
@@ -72,6 +75,19 @@ func checkIsolation(c *c10Case) (key, msg string, stats map[string]int) {
 		switch c.Spell[i] {
 		case "abs":
 			return abs
+		case "abs-dotdot":
+			// absolute but not normalised: through another repository (or a plain directory) and back
+			via := "detour"
+			for _, r := range c.Repos {
+				if !strings.HasPrefix(c.Args[i], r+"/") {
+					via = r
+				}
+			}
+			up := strings.Repeat("../", strings.Count(via, "/")+1)
+			return w.Root + "/" + via + "/" + up + c.Args[i]
+		case "rel-dotdot":
+			r, _ := filepath.Rel(cwd, abs)
+			return "sub/../" + r
 		case "dot":
 			r, _ := filepath.Rel(cwd, abs)
 			return "./" + r
@@ -268,6 +284,60 @@ func TestC10(t *testing.T) {
 		if race {
 			n = hx.N(120, 2500)
 		}
+		// (2') no lint run, whatever the workflow, may modify a built-in table: generated workflows with
+		// context objects used as whole values (matrix rows, include/exclude elements, env, with)
+		if !race {
+			r.Check(t, "tables-unchanged-by-any-workflow", hx.N(1500, 40000), func(rt *rapid.T) {
+				g := &wf.G{T: rt, Rare: true}
+				w := g.Workflow()
+				var cand []*ye.Node
+				for _, lf := range scalarLeaves(w.Root) {
+					if l := wf.LeafOf(lf); l.Template && l.Exempt == "" {
+						cand = append(cand, lf)
+					}
+				}
+				pool := append([]string{"${{ github }}", "${{ github.event }}", "${{ github.event.pull_request }}", "${{ inputs }}", "${{ needs }}", "${{ env }}", "${{ vars }}", "${{ secrets }}", "${{ runner }}", "${{ job }}", "${{ strategy }}", "${{ steps }}", "${{ matrix }}", "${{ github.event.*.body }}", "${{ github.*.sha }}", "${{ fromJSON(toJSON(github)) }}", "${{ github.event || inputs }}", "${{ inputs && github }}"}, c09Exprs...)
+				for i := 0; i < rapid.IntRange(1, 8).Draw(rt, "n"); i++ {
+					lf := cand[rapid.IntRange(0, len(cand)-1).Draw(rt, "leaf")]
+					lf.Val, lf.Raw, lf.Style = rapid.SampledFrom(pool).Draw(rt, "v"), "", ye.Double
+				}
+				// include / exclude elements: expression followed by a literal combination
+				w.Root.Walk(func(n, p *ye.Node, idx int, isKey bool) {
+					if isKey && (n.Val == "include" || n.Val == "exclude") && p.Vals[idx].Kind == ye.Seq && rapid.Bool().Draw(rt, "inc") {
+						l := p.Vals[idx]
+						e := ye.Q(rapid.SampledFrom(pool[:18]).Draw(rt, "ie"), ye.Double)
+						lit := ye.M().Set("foo", ye.S("1")).Set("sha", ye.M().Set("x", ye.S("y")))
+						l.Vals = append([]*ye.Node{e, lit}, l.Vals...)
+					}
+				})
+				src := ye.Emit(w.Root, g.Layout())
+				before := al.VerifTablesFingerprint()
+				dump := ""
+				if hx.P.Replay != "" {
+					dump = al.VerifTablesDump()
+				}
+				_, _, pan, _ := lintSafe([]byte(src))
+				r.Eval()
+				r.NT(src)
+				r.Class("single-file/tables-fingerprint")
+				if pan != nil {
+					return // crashes belong to C01
+				}
+				if al.VerifTablesFingerprint() != before {
+					detail := ""
+					if dump != "" {
+						la, lb := strings.Split(dump, "\n"), strings.Split(al.VerifTablesDump(), "\n")
+						for i := range la {
+							if i < len(lb) && la[i] != lb[i] {
+								detail += fmt.Sprintf("\n- %s\n+ %s", trunc(la[i], 400), trunc(lb[i], 400))
+							}
+						}
+					}
+					c := &c10Case{Files: map[string]string{"w.yml": src}, Args: []string{"w.yml"}, Spell: []string{"abs"}, Procs: 1}
+					r.Fail(rt, "C10/built-in-table-modified-by-single-workflow", "linting this workflow changed the fingerprint of the built-in tables"+detail+"\n"+src, "C10/world", c)
+				}
+			})
+		}
 		r.Check(t, "worlds", n, func(rt *rapid.T) {
 			c := &c10Case{Files: map[string]string{}}
 			nrepos := rapid.IntRange(1, 3).Draw(rt, "nrepos")
@@ -308,7 +378,7 @@ func TestC10(t *testing.T) {
 			k := rapid.IntRange(2, min(len(perm), 10)).Draw(rt, "nargs")
 			c.Args = perm[:k]
 			for range c.Args {
-				c.Spell = append(c.Spell, rapid.SampledFrom([]string{"rel", "rel", "dot", "abs"}).Draw(rt, "spell"))
+				c.Spell = append(c.Spell, rapid.SampledFrom([]string{"rel", "rel", "dot", "abs", "abs-dotdot", "rel-dotdot"}).Draw(rt, "spell"))
 			}
 			c.Cwd = rapid.SampledFrom(append([]string{"", ""}, c.Repos...)).Draw(rt, "cwd")
 			c.Procs = rapid.SampledFrom([]int{1, 2, 4, 16}).Draw(rt, "procs")
